@@ -132,12 +132,14 @@ Definition tsel_eqb (a b : tsel) : bool :=
 (* the user-supplied `gradient(direction, wrt_par)` attribute of a geometry *)
 Inductive ggrad :=
 | GGDiag (dcs : list Qc) (sel : tsel)  (* direction * dmap(wrt_par), element-wise, in either order *)
-| GGStepSum (idx : list (list nat)). (* StepExpansion: out_i = sum of direction over step i (fresh array) *)
+| GGStepSum (idx : list (list nat))  (* StepExpansion: out_i = sum of direction over step i (fresh array) *)
+| GGMatT (m : nat) (K : list (list Qc)). (* a linear expansion par2fun p = K p (KLExpansion): K.T @ np.asarray(direction), K with m columns *)
 
 Definition ggrad_eqb (a b : ggrad) : bool :=
   match a, b with
   | GGDiag x s, GGDiag y s' => qcl_eqb x y && tsel_eqb s s'
   | GGStepSum x, GGStepSum y => natll_eqb x y
+  | GGMatT m K, GGMatT m' K' => Nat.eqb m m' && qcll_eqb K K'
   | _, _ => false
   end.
 
@@ -267,9 +269,10 @@ Definition ggrad_apply (gg : ggrad) (d wp : vec) : vec :=
   match gg with
   | GGDiag dcs _ => vmul (pmap dcs wp) d
   | GGStepSum idx => map (fun s => qsumv (map (nthq d) s)) idx
+  | GGMatT m K => qmattvec m K d
   end.
 Definition ggrad_sel (gg : ggrad) : tsel :=
-  match gg with GGDiag _ s => s | GGStepSum _ => SelNone end.
+  match gg with GGDiag _ s => s | GGStepSum _ | GGMatT _ _ => SelNone end.
 
 (* ---- Geometry.__eq__ as reached from `array.geometry == model_geometry` (a = left operand) ----
    Same class: all attribute values equal.  _DefaultGeometry1D and Continuous1D with the same grid
@@ -591,6 +594,10 @@ Definition check_out_tol (r : res output) (o : observed) : bool :=
 Definition check_forward_tol (q : quirks) (F : fwd) (rg dg : geo) (x : input) (is_par : bool)
            (o : observed) (geom_is_range : bool) : bool :=
   check_out_tol (forward q F rg dg x is_par) o && geom_is_range.
+
+Definition check_gradient_tol (q : quirks) (gf : gfun) (rg dg : geo) (d w : ginput) (dpar wpar : bool)
+           (o : observed) (geom_is_domain : bool) : bool :=
+  check_out_tol (gradient q gf rg dg d w dpar wpar) o && geom_is_domain.
 
 (* cells in which only "refused" is compared (exception class not modelled) *)
 Definition check_refused (r : res output) (raised : bool) : bool :=
